@@ -37,15 +37,21 @@ def run(item):
             continue
         try:
             b = part.get_block(base[c["p"] - 1], c["k"] - 1)
+            if len(base) == 4:
+                base.append(b)          # base object 5: the block returned by the first call (it can be decomposed again)
             out.append("ok")
             ret.append(sparse(proj.pvec(b, MAXP)))
             oid.append(ids.setdefault(id(b), len(ids) + 1))
         except Exception as e:
+            if len(base) == 4:
+                base.append(None)
             out.append("raises:" + type(e).__name__)
             ret.append([])
             oid.append(0)
     # a SECOND partition with the same number of blocks decomposes another point: two partitions are independent, the
     # blocks of one are not constrained against the blocks of the other
+    while len(base) < 5:
+        base.append(None)
     part2 = pep.declare_block_partition(d=item["d"])
     z = 2 * x1 - x2
     part2.get_block(z, 0)
@@ -55,9 +61,9 @@ def run(item):
     blocks = []
     for p in base:
         bl = None
-        for key, val in part.blocks_dict.items():
-            if key is p:
-                bl = val
+        for key, stored in part.blocks_dict.items():
+            if key is p and p is not None:
+                bl = stored
         blocks.append([sparse(proj.pvec(b, MAXP)) for b in bl] if bl is not None else [])
     cons = []
     idx = proj.pair_index(MAXP)
@@ -68,4 +74,4 @@ def run(item):
         F, G, cc = proj.evec(c.expression, MAXP, Expression.counter)
         cons.append(dict(sense=proj.sense(c), e=dict(G=sparse(G), c=[cc.numerator, cc.denominator])))
     return dict(d=item["d"], ctor=item.get("ctor", 1), solved=0 if val is None else 1, h=item["h"], out=out, ret=ret, oid=oid, blocks=blocks, cons=cons,
-                base=[sparse(proj.pvec(p, MAXP)) for p in base], np=Point.counter)
+                base=[sparse(proj.pvec(p, MAXP)) if p is not None else [] for p in base], np=Point.counter)
